@@ -67,3 +67,24 @@ Proof.
   pose proof (pow4_pos k) as H0.
   apply C_ext; unfold RtoC; simpl; rewrite pow_inv; field; lra.
 Qed.
+
+(* which parameters p are channels: in Tangelo's parametrisation (1-p) rho + p I/2^k the value handed to
+   cirq.depolarize is a probability exactly when 0 <= p <= 4^k/(4^k-1); in particular every p in [0,1] and
+   also p in (1, 4^k/(4^k-1)] (e.g. 4/3 on one qubit, 16/15 on two) *)
+Lemma rate_channel_range_real (p : R) (k : nat) :
+  (1 <= k)%nat ->
+  (0 <= p * (4 ^ k - 1) / 4 ^ k <= 1 <-> 0 <= p <= 4 ^ k / (4 ^ k - 1)).
+Proof.
+  intro Hk. pose proof (pow4_gt1 k Hk) as H1. pose proof (pow4_pos k) as H0.
+  assert (Hd : 0 < 4 ^ k - 1) by lra.
+  assert (E : p * (4 ^ k - 1) / 4 ^ k = p * ((4 ^ k - 1) / 4 ^ k)) by (field; lra).
+  assert (Hc : 0 < (4 ^ k - 1) / 4 ^ k) by (apply Rdiv_lt_0_compat; lra).
+  assert (Ei : 4 ^ k / (4 ^ k - 1) * ((4 ^ k - 1) / 4 ^ k) = 1) by (field; lra).
+  rewrite E. split.
+  - intros [Ha Hb]. split.
+    + apply (Rmult_le_reg_r ((4 ^ k - 1) / 4 ^ k)); [exact Hc | lra].
+    + apply (Rmult_le_reg_r ((4 ^ k - 1) / 4 ^ k)); [exact Hc | lra].
+  - intros [Ha Hb]. split.
+    + apply Rmult_le_pos; lra.
+    + apply Rle_trans with (4 ^ k / (4 ^ k - 1) * ((4 ^ k - 1) / 4 ^ k)); [apply Rmult_le_compat_r; lra | rewrite Ei; lra].
+Qed.
